@@ -195,6 +195,7 @@ def _resolve_identifier(
 
         if hasattr(source, "values"):
             attr_scope = Scope(getattr(source, "values", ()), owner=source)
+            attr_scope.lexical = bool(getattr(source, "recursive", False))
             new_chain = tuple(list(scope_chain) + [attr_scope])
             if isinstance(source, NixExpression):
                 set_resolution_context(source, new_chain)
@@ -227,9 +228,11 @@ def _resolve_identifier(
             raise ResolutionError(
                 f"{identifier.name} is a function parameter without a known value"
             )
+        # The value of a plain set's attribute does not see its siblings.
+        value_chain = scope_chain if scope.lexical else outer_chain
         try:
             binding = scope.get_binding(identifier.name)
-            return _resolve_binding(binding, scope_chain)
+            return _resolve_binding(binding, value_chain)
         except KeyError:
             quoted_match = next(
                 (
@@ -242,7 +245,7 @@ def _resolve_identifier(
                 None,
             )
             if quoted_match is not None:
-                return _resolve_binding(quoted_match, scope_chain)
+                return _resolve_binding(quoted_match, value_chain)
 
         for entry in scope:
             if not _inherit_matches(identifier.name, entry):
